@@ -81,6 +81,8 @@ def run(ctx, specdir, module, cfg=None, workers="auto", timeout=600, extra_files
     meta = os.path.join(wd, "meta")
     java = ["java", "-XX:+UseParallelGC", "-Xss512m"]
     java.append("-Xmx%s" % (heap or "4g"))
+    if os.environ.get("TMPDIR"):
+        java.append("-Djava.io.tmpdir=" + os.environ["TMPDIR"])
     if dfs_queue:
         java.append("-Dtlc2.tool.queue.IStateQueue=StateDeque")
     for k, v in (jvm_props or {}).items():
